@@ -42,7 +42,7 @@ def serKey (ks : KeyState Bytes) : Bytes :=
   frList [ks.label, serCmd ks.cmd,
           frList (ks.inputs.map fun pv => fr pv.1 ++ fr (serOpt pv.2)),
           frList (ks.outs.map serOutDef),
-          frList (ks.deps.map serOH),
+          frList (ks.deps.map fun d => fr d.1 ++ fr (serOH d.2)),
           frList (ks.fp.map fun kv => fr kv.1 ++ fr kv.2),
           ks.plat]
 
@@ -201,7 +201,8 @@ def jOpt : Option Val → Json
 def simulate : Handler := fun j => do
   let fxj ← j.getObjVal? "fx"
   let fx : Fixes := { gateChecks := ← getBool fxj "gateChecks", syncTaint := ← getBool fxj "syncTaint",
-                      rerunOnce := ← getBool fxj "rerunOnce", minValidate := ← getBool fxj "minValidate", loadFault := ← getBool fxj "loadFault" }
+                      rerunOnce := ← getBool fxj "rerunOnce", minValidate := ← getBool fxj "minValidate", loadFault := ← getBool fxj "loadFault",
+                      checkDeps := (fxj.getObjValAs? Bool "checkDeps").toOption.getD true }
   let P : Params Bytes := { K := serKey, run := concreteRun, fx := fx }
   let files ← getBytesPairs j "files"
   let steps ← (← getArr j "steps").toList.mapM getStep
